@@ -3,12 +3,15 @@ package c17
 
 import (
 	"context"
+	cid "github.com/ipfs/go-cid"
+	_ "github.com/ipld/go-ipld-prime/codec/raw"
 	"io"
 
 	"github.com/ipld/go-ipld-prime/datamodel"
 	nd "github.com/ipld/go-ipld-prime/internal/verifnd"
 	"github.com/ipld/go-ipld-prime/linking"
 	cidlink "github.com/ipld/go-ipld-prime/linking/cid"
+	"github.com/ipld/go-ipld-prime/node/basicnode"
 	"github.com/ipld/go-ipld-prime/storage"
 	"github.com/ipld/go-ipld-prime/storage/memstore"
 	"github.com/ipld/go-ipld-prime/zzverif/ref/lsys"
@@ -120,6 +123,43 @@ func HMemKeyValue() {
 			nd.Assert(nd.EqBytes(b, vals[i]), "after the history, get returns the bytes put under that key")
 		}
 	}
+	nd.Reach("end")
+}
+
+// HLinkSystemStore: a link system writing through SetWriteStorage / SetReadStorage into a
+// key-value store: after any history of Store calls (the same block again, other blocks) the
+// store holds exactly one entry per distinct link, under that link's key, and nothing else.
+func HLinkSystemStore() {
+	ctx := context.Background()
+	st := &memstore.Store{}
+	ls := cidlink.DefaultLinkSystem()
+	ls.SetWriteStorage(st)
+	ls.SetReadStorage(st)
+	lp := cidlink.LinkPrototype{Prefix: cid.Prefix{Version: 1, Codec: 0x55, MhType: 0, MhLength: -1}}
+	vals := [][]byte{nd.Bytes("v0", 2), nd.Bytes("v1", 2)}
+	nd.Assume(!nd.EqBytes(vals[0], vals[1]))
+	seen := []bool{false, false}
+	var links [2]datamodel.Link
+	for op := 0; op < nd.Param("OPS", 3); op++ {
+		i := nd.Choose("which", 2)
+		l, err := ls.Store(linking.LinkContext{Ctx: ctx}, lp, basicnode.NewBytes(vals[i]))
+		nd.Assert(err == nil, "Store succeeds (also for a block already present)")
+		if err != nil {
+			return
+		}
+		seen[i], links[i] = true, l
+	}
+	want := 0
+	for i := range vals {
+		if seen[i] {
+			want++
+			got, err := st.Get(ctx, links[i].Binary())
+			nd.Assert(err == nil && nd.EqBytes(got, vals[i]), "every stored block is under its link's key")
+		}
+	}
+	nd.Assert(len(st.Bag) == want, "the store holds exactly one entry per distinct block stored")
+	has, err := st.Has(ctx, "")
+	nd.Assert(err == nil && !has, "no entry appears under a key that was never stored (the empty key)")
 	nd.Reach("end")
 }
 
